@@ -69,11 +69,6 @@ theorem recording_root_call (native : Bool) (B : Rect) (c : Call) :
     (FTarget.root native B).call c = RootState.record (rootLogged native B c) :=
   FTarget.root_call native B c
 
-private theorem top_call (native : Bool) (B : Rect) (s : Stack) (c : Call) :
-    ((FTarget.root native B).stack s).call c
-      = RootState.record ((rootLogged native B ∘ lowerStack B s) c) := by
-  rw [FTarget.stack_call, FTarget.root_bbox, FTarget.root_call]; rfl
-
 /-- **Target error through any adapter stack.** Call list `cs` issued (with `?`) on top of stack
 `s` over a recording root whose call number `k` fails, `k` below the length of `cs`: `draw`
 returns exactly `Err(TErr(k))`; the root's record afterwards has counted `k + 1` calls (the
@@ -85,7 +80,7 @@ theorem fault_through_adapters (native : Bool) (B : Rect) (s : Stack) (cs : List
       (.error k, { failAt := some k, calls := k + 1, callsAfterError := 0, errored := true,
                    log := (rootLog native B s cs).take k }) := by
   have h := FTarget.runCalls_record_fail ((FTarget.root native B).stack s) _
-    (top_call native B s) k cs (RootState.init (some k)) rfl rfl (Nat.zero_le _)
+    (FTarget.root_stack_call native B s) k cs (RootState.init (some k)) rfl rfl (Nat.zero_le _)
     (by simpa [RootState.init] using hk)
   simpa [faultRun, rootLog, RootState.init, List.map_map] using h
 
@@ -97,7 +92,7 @@ theorem fault_free_through_adapters (native : Bool) (B : Rect) (s : Stack) (cs :
       (.ok (), { failAt := failAt, calls := cs.length, callsAfterError := 0, errored := false,
                  log := rootLog native B s cs }) := by
   have h := FTarget.runCalls_record_ok ((FTarget.root native B).stack s) _
-    (top_call native B s) cs (RootState.init failAt) rfl
+    (FTarget.root_stack_call native B s) cs (RootState.init failAt) rfl
     (by intro k hk; right; simpa [RootState.init] using hno k hk)
   simpa [faultRun, rootLog, RootState.init, List.map_map] using h
 
